@@ -629,7 +629,7 @@ func TestVerifC16(t *testing.T) {
 	defer os.RemoveAll(env.root)
 	genv := &gen.Env{States: env.states}
 	bound := r.Pick(2, 3)
-	r.Set("rule", fmt.Sprintf("dumps = all choice vectors of the traceback-printer model with <=%d content deviations over a restricted alphabet (non-ASCII package and file names, dotted paths, elided stacks, creators, sleep, lock, nested arguments, 1..5 goroutines) + 8 race reports; each x path format {base, rel, full} x colour {off,on} x similarity {AnyPointer, AnyValue} (full product of the configuration) and x filter/match expressions drawn from the headers; rendered by the real process(); oracle from the library's own snapshot/aggregation: one block per admitted bucket in order, header fields, frame line fields in order, file and function columns equal over the whole output (rune columns), (...) marker iff elided, strip(colour)=plain, filter/match partition the unfiltered blocks. non-trivial = more than one block or a non-default configuration; distinct = (input, configuration)", bound))
+	r.Set("rule", fmt.Sprintf("dumps = all choice vectors of the traceback-printer model with <=%d content deviations over a restricted alphabet (non-ASCII package and file names, dotted paths, elided stacks, creators, sleep, lock, nested arguments, 1..5 goroutines) + 4 race reports; each x path format {base, rel, full} x colour {off,on} x similarity {AnyPointer, AnyValue} (full product of the configuration) and x filter/match expressions drawn from the headers; rendered by the real process(); oracle from the library's own snapshot/aggregation: one block per admitted bucket in order, header fields, frame line fields in order, file and function columns equal over the whole output (rune columns), (...) marker iff elided, strip(colour)=plain, filter/match partition the unfiltered blocks. non-trivial = more than one block or a non-default configuration; distinct = (input, configuration)", bound))
 	r.Set("assumptions", []string{"expected header and frame fields are computed from the public stack API on the same input and options; the check is about rendering, not parsing", "GOPATH points at a scratch layout so that relative paths exist"})
 	if rv := r.ReplayFile(); rv != nil {
 		t.Logf("replay %s: %s\ninput:\n%s", rv.Key, rv.Summary, rv.Input())
